@@ -1,28 +1,15 @@
 /-
-  Certificate obligations, parts 48..55 of 64 of the `current` client system (kernel evaluation; 8 modules
-  so that lake checks them in parallel; small parts keep the kernel's memory small).
-  Assembled in `Lemmas/CliCert.lean`.
+  Certificate obligations, parts 12..13 of 16 of the `current` client system (kernel evaluation; 8 modules
+  so that lake checks them in parallel). Assembled in `Lemmas/CliCert.lean`.
 -/
 import KmipModel.Model.CliConn
 import KmipModel.Gen.CertCliConn
 namespace Kmip.CliCert
 open Kmip.CliLts Kmip.CliConn Kmip.Gen.CertCliConn
 
-theorem cuClosed48 : partClosed (sys current) codec certCurrent cuP48 = true := by decide +kernel
-theorem cuSafe48 : partSafe codec (badPartial current) cuP48 = true := by decide +kernel
-theorem cuClosed49 : partClosed (sys current) codec certCurrent cuP49 = true := by decide +kernel
-theorem cuSafe49 : partSafe codec (badPartial current) cuP49 = true := by decide +kernel
-theorem cuClosed50 : partClosed (sys current) codec certCurrent cuP50 = true := by decide +kernel
-theorem cuSafe50 : partSafe codec (badPartial current) cuP50 = true := by decide +kernel
-theorem cuClosed51 : partClosed (sys current) codec certCurrent cuP51 = true := by decide +kernel
-theorem cuSafe51 : partSafe codec (badPartial current) cuP51 = true := by decide +kernel
-theorem cuClosed52 : partClosed (sys current) codec certCurrent cuP52 = true := by decide +kernel
-theorem cuSafe52 : partSafe codec (badPartial current) cuP52 = true := by decide +kernel
-theorem cuClosed53 : partClosed (sys current) codec certCurrent cuP53 = true := by decide +kernel
-theorem cuSafe53 : partSafe codec (badPartial current) cuP53 = true := by decide +kernel
-theorem cuClosed54 : partClosed (sys current) codec certCurrent cuP54 = true := by decide +kernel
-theorem cuSafe54 : partSafe codec (badPartial current) cuP54 = true := by decide +kernel
-theorem cuClosed55 : partClosed (sys current) codec certCurrent cuP55 = true := by decide +kernel
-theorem cuSafe55 : partSafe codec (badPartial current) cuP55 = true := by decide +kernel
+theorem cuClosed12 : partClosed (sys current) codec certCurrent cuP12 = true := by decide +kernel
+theorem cuSafe12 : partSafe codec (bad current) cuP12 = true := by decide +kernel
+theorem cuClosed13 : partClosed (sys current) codec certCurrent cuP13 = true := by decide +kernel
+theorem cuSafe13 : partSafe codec (bad current) cuP13 = true := by decide +kernel
 
 end Kmip.CliCert
